@@ -1,4 +1,4 @@
 Require Extraction.
 Require Import ExtrOcamlBasic.
-From Herc Require Import Base.Conv Plan.Syntax Plan.Exec Plan.Graph Plan.Checker.
-Extraction "c02_model.ml" conv_anchor plan_ok topob retainedb mkA.
+From Herc Require Import Base.Conv Plan.Syntax Plan.Exec Plan.Graph Plan.Checker Plan.ExecCheck.
+Extraction "c02_model.ml" conv_anchor plan_ok topob retainedb mkA exec_ok mkR.
